@@ -22,13 +22,25 @@ import (
 type ipver struct {
 	enable bool
 	ips    []string
+	// how the file says it: a key that is left out means "false" / "no addresses" (enable is then
+	// false and ips empty in this record: the model sees the meaning, the loader sees the file)
+	noEnable bool
+	noList   bool
 }
 
 func yamlOf(v ipver) string {
 	var b strings.Builder
-	fmt.Fprintf(&b, "enable: %v\nip_white_list:\n", v.enable)
-	for _, ip := range v.ips {
-		fmt.Fprintf(&b, "  - %q\n", ip)
+	if v.noEnable && v.noList {
+		return "# whitelist switched off\n"
+	}
+	if !v.noEnable {
+		fmt.Fprintf(&b, "enable: %v\n", v.enable)
+	}
+	if !v.noList {
+		fmt.Fprintf(&b, "ip_white_list:\n")
+		for _, ip := range v.ips {
+			fmt.Fprintf(&b, "  - %q\n", ip)
+		}
 	}
 	return b.String()
 }
@@ -44,7 +56,7 @@ func init() {
 			for _, ip := range sx.Items(x[1]) {
 				ips = append(ips, string(sx.Bytes(ip)))
 			}
-			vs = append(vs, ipver{sx.Int(x[0]) != 0, ips})
+			vs = append(vs, ipver{enable: sx.Int(x[0]) != 0, ips: ips})
 		}
 		var probes []string
 		for _, p := range sx.Items(it[1]) {
@@ -178,7 +190,16 @@ func suiteAuthIp(c *Ctx) {
 				ips = append(ips[:at], append([]string{dup}, ips[at:]...)...)
 			}
 		}
-		return ipver{r.Chance(80), ips}
+		v := ipver{enable: r.Chance(80), ips: ips}
+		// a version that leaves a key out: the setting falls back to its default, it does not keep
+		// the value of the previous version
+		if r.Chance(12) {
+			v.noEnable, v.enable = true, false
+		}
+		if r.Chance(10) {
+			v.noList, v.ips = true, nil
+		}
+		return v
 	}
 	probes := []string{"10.0.0.1:5000", "10.0.0.2:6000", "10.0.0.3:1", "127.0.0.1:40000", "192.168.1.77:9", "10.0.0.10:1", "10.0.0.9:1", "10.0.0.1"}
 	enc := func(vs []ipver, probes []string) sx.V {
@@ -194,10 +215,10 @@ func suiteAuthIp(c *Ctx) {
 	}
 	// corpus: the repaired defects
 	corpus := [][]ipver{
-		{{true, []string{"10.0.0.1", "10.0.0.2"}}, {true, []string{"10.0.0.1"}}},
-		{{true, []string{"10.0.0.1"}}, {false, []string{"10.0.0.2"}}, {true, []string{"10.0.0.3"}}},
-		{{false, []string{"10.0.0.1"}}},
-		{{true, nil}},
+		{{enable: true, ips: []string{"10.0.0.1", "10.0.0.2"}}, {enable: true, ips: []string{"10.0.0.1"}}},
+		{{enable: true, ips: []string{"10.0.0.1"}}, {enable: false, ips: []string{"10.0.0.2"}}, {enable: true, ips: []string{"10.0.0.3"}}},
+		{{enable: false, ips: []string{"10.0.0.1"}}},
+		{{enable: true}},
 	}
 	for _, vs := range corpus {
 		c.Emit("authip", enc(vs, probes), Safe(func() sx.V { return runAuthIp(vs, probes, "load") }), "corpus", "load")
@@ -225,7 +246,7 @@ func suiteAuthIp(c *Ctx) {
 	watchDir = scratchDir() + "-w"
 	os.MkdirAll(watchDir, 0o755)
 	defer os.RemoveAll(watchDir)
-	os.WriteFile(filepath.Join(watchDir, "authip.yaml"), []byte(yamlOf(ipver{false, nil})), 0o644)
+	os.WriteFile(filepath.Join(watchDir, "authip.yaml"), []byte(yamlOf(ipver{})), 0o644)
 	if err := authip.LoopIPWhiteList(watchDir, "authip.yaml"); err != nil {
 		c.Emit("authip", enc(nil, nil), sx.L(sx.S("watcher-error"), sx.S(err.Error())), "watch")
 		return
@@ -235,6 +256,18 @@ func suiteAuthIp(c *Ctx) {
 		wn = 60
 	}
 	plain := []string{"10.0.0.1", "10.0.0.2", "10.0.0.3", "127.0.0.1", "192.168.1.77", "10.0.0.10", "10.0.0.9"}
+	// keys that disappear from the file between two versions, through the watcher (one loader object
+	// lives across reloads there)
+	wcorpus := [][]ipver{
+		{{enable: true, ips: []string{"10.0.0.1"}}, {noEnable: true, ips: []string{"10.0.0.1"}}},
+		{{enable: true, ips: []string{"10.0.0.1", "10.0.0.2"}}, {enable: true, noList: true}},
+		{{enable: true, ips: []string{"10.0.0.3"}}, {noEnable: true, noList: true}},
+	}
+	for i, vs := range wcorpus {
+		vs := vs
+		ms := []string{"inplace", []string{"inplace", "rename", "recreate"}[i%3]}
+		c.Emit("authip", enc(vs[len(vs)-1:], plain), Safe(func() sx.V { return runWatcher(vs, ms, plain) }), "watch", "corpus", "key-left-out")
+	}
 	for i := 0; i < wn; i++ {
 		r := rng.New(c.Seed, "authip-watch", i)
 		k := r.Range(1, 3)
